@@ -128,6 +128,10 @@ def idleAfter (cfg : StartCfg) (site : Site) (vfr : Bool) : Bool :=
     && (site != .chanExtras || l.contains .xcData)
     && (site == .mixerOn || l.contains .virtOff || (site == .virtOn && vfr))
 
+/-- does libxmp_virt_on's failure path zero everything it set? (from the generated list) -/
+def vfrNow : Bool :=
+  ["maxvoc", "num_tracks", "virt_channels", "virt_used"].all Gen.StartCfg.virtOnFailZeroes.contains
+
 /-- the site (and sub-site) at which the `k`-th allocator call of `xmp_start_player` lives, for a module
 shape `pp` (mirrors the allocation order of `Resource.startPlayer`) -/
 def siteOf (pp : Resource.StartParams) (k : Nat) : Option (Site × Bool) :=
